@@ -27,15 +27,18 @@ func note() {
 	}
 }
 
-func Background() Context                                       { return context.Background() }
-func TODO() Context                                             { return context.TODO() }
-func WithCancel(p Context) (Context, CancelFunc)                { return context.WithCancel(p) }
-func WithCancelCause(p Context) (Context, CancelCauseFunc)      { return context.WithCancelCause(p) }
-func WithValue(p Context, k, v any) Context                     { return context.WithValue(p, k, v) }
-func WithoutCancel(p Context) Context                           { return context.WithoutCancel(p) }
-func Cause(c Context) error                                     { return context.Cause(c) }
-func AfterFunc(c Context, f func()) (stop func() bool)          { return context.AfterFunc(c, f) }
-func WithDeadline(p Context, d time.Time) (Context, CancelFunc) { note(); return context.WithDeadline(p, d) }
+func Background() Context                                  { return context.Background() }
+func TODO() Context                                        { return context.TODO() }
+func WithCancel(p Context) (Context, CancelFunc)           { return context.WithCancel(p) }
+func WithCancelCause(p Context) (Context, CancelCauseFunc) { return context.WithCancelCause(p) }
+func WithValue(p Context, k, v any) Context                { return context.WithValue(p, k, v) }
+func WithoutCancel(p Context) Context                      { return context.WithoutCancel(p) }
+func Cause(c Context) error                                { return context.Cause(c) }
+func AfterFunc(c Context, f func()) (stop func() bool)     { return context.AfterFunc(c, f) }
+func WithDeadline(p Context, d time.Time) (Context, CancelFunc) {
+	note()
+	return context.WithDeadline(p, d)
+}
 func WithTimeout(p Context, d time.Duration) (Context, CancelFunc) {
 	note()
 	return context.WithTimeout(p, d)
